@@ -78,7 +78,13 @@ JudgeFilter(r, i) ==
     LET obj == {r.obj[j] : j \in DOMAIN r.obj}
         want == ObjMatches(r.f, obj)
         dir == IF r.err # "" THEN "error" ELSE IF want /\ ~r.got THEN "missed" ELSE "extra"
-        dev == "filter:" \o Shape(r.f) \o RelName(Rels(r.f, obj)) \o ":" \o dir
+        \* an object with several components of the filtered type, answered from the index from
+        \* the first query on (the index keeps one merged list of values per object)
+        several == Cardinality({j \in DOMAIN r.obj : r.obj[j].kind = r.f.comp}) >= 2
+        fromidx == "thr" \in DOMAIN r /\ r.thr = "index" /\ several
+                   /\ "proper-substring" \notin Rels(r.f, obj)
+        dev == "filter:" \o Shape(r.f) \o RelName(Rels(r.f, obj))
+               \o B(fromidx, ":several-components:answered-from-index") \o ":" \o dir
     IN IF r.err = "" /\ r.got = want THEN {}
        ELSE {[k |-> IF dev \in EnabledDevs THEN "known" ELSE "viol", i |-> i, t |-> "filter", dev |-> dev, want |-> want]}
 
